@@ -334,7 +334,9 @@ def tiOk (ti : Terminfo) : Bool :=
    (decide (8 ≤ ti.colors) && ti.setFg == setaf256 && ti.setBg == setab256 && optForm ti.setFgBg setfgbg256)) &&
   ti.resetFgBg == resetStd &&
   optForm ti.setFgRGB setfRGB && optForm ti.setBgRGB setbRGB && optForm ti.setFgBgRGB setfbRGB &&
-  !(ti.autoMargin && ti.disableAutoMargin.isEmpty && !ti.insertChar.isEmpty)
+  !(ti.autoMargin && ti.disableAutoMargin.isEmpty && !ti.insertChar.isEmpty) &&
+  -- coherence of the direct-colour strings (all three or none; tcell sets them together, terminfo.go addTrueColor)
+  (ti.setFgRGB.isEmpty == ti.setBgRGB.isEmpty) && (ti.setFgBgRGB.isEmpty || !ti.setFgRGB.isEmpty)
 
 /-- the strings the screen constructor derives from it -/
 def dOk (d : Derived) : Bool :=
@@ -342,7 +344,9 @@ def dOk (d : Derived) : Bool :=
   optForm d.doubleUnder (ulStyleStd 2) && optForm d.curlyUnder (ulStyleStd 3) &&
   optForm d.dottedUnder (ulStyleStd 4) && optForm d.dashedUnder (ulStyleStd 5) &&
   optForm d.underColor ulIdx && optForm d.underRGB ulRGB && optForm d.underFg ulResetStd &&
-  (d.cursorStyles == none || d.cursorStyles == some cursorStylesStd)
+  (d.cursorStyles == none || d.cursorStyles == some cursorStylesStd) &&
+  -- underline colour: indexed and direct form together or not at all (prepareUnderlines derives one from the other)
+  (d.underRGB.isEmpty == d.underColor.isEmpty)
 
 /-- **the class of terminal descriptions Layer B is proved for**: every capability string the draw path uses is
     one of the standard ECMA-48 / xterm forms listed above (or absent where the library tolerates that) -/
